@@ -116,9 +116,9 @@ func c06r1(c *Ctx) {
 			if _, ok := e.except[f.Name()]; ok {
 				continue
 			}
-			okSite := false
 			var pos token.Pos = fn.Pos()
 			nsites := 0
+			sites := map[ssa.Instruction]bool{}
 			eachInstr(fn, func(ins ssa.Instruction) {
 				var base ssa.Value
 				var fv *types.Var
@@ -135,24 +135,49 @@ func c06r1(c *Ctx) {
 				}
 				nsites++
 				pos = ins.Pos()
-				// all guards of this block test only the field itself or the receiver
-				good := true
-				for _, i := range allIfs(fn) {
-					if strings.HasSuffix(i.Block().Comment, ".loop") {
-						continue // loop headers (range/for conditions) are not guards on the contribution
-					}
-					under := underEdges(fn, ins.Block(), []Edge{{i.Block(), 0}}) || underEdges(fn, ins.Block(), []Edge{{i.Block(), 1}})
-					if !under {
-						continue
-					}
-					if !condOnlyAbout(i.Cond, recv, f) {
-						good = false
-					}
-				}
-				if good {
-					okSite = true
-				}
+				sites[ins] = true
 			})
+			// the contribution is made on every path to a return, except for paths that leave through a condition
+			// about the field itself / the receiver (nil receiver, empty field, loop over the field) on the edge
+			// that leads away from the contribution
+			isSite := func(ins ssa.Instruction) bool { return sites[ins] }
+			reachesSite := func(b *ssa.BasicBlock) bool {
+				seenB := map[*ssa.BasicBlock]bool{b: true}
+				st := []*ssa.BasicBlock{b}
+				for len(st) > 0 {
+					cur := st[len(st)-1]
+					st = st[:len(st)-1]
+					for _, ins := range cur.Instrs {
+						if sites[ins] {
+							return true
+						}
+					}
+					for _, su := range cur.Succs {
+						if !seenB[su] {
+							seenB[su] = true
+							st = append(st, su)
+						}
+					}
+				}
+				return false
+			}
+			var cut []Edge
+			for _, i := range allIfs(fn) {
+				self := strings.HasSuffix(i.Block().Comment, ".loop") || condOnlyAbout(i.Cond, recv, f)
+				if !self {
+					continue
+				}
+				// a guard of the contribution: one edge leads to it, the other leads away
+				r0, r1 := reachesSite(i.Block().Succs[0]), reachesSite(i.Block().Succs[1])
+				if r0 && !r1 {
+					cut = append(cut, Edge{i.Block(), 1})
+				}
+				if r1 && !r0 {
+					cut = append(cut, Edge{i.Block(), 0})
+				}
+			}
+			_, found := pathAvoidingE(fn.Blocks[0], nil, isSite, isReturn, cut, nil)
+			okSite := !found
 			if nsites == 0 {
 				continue // read in a callee; covered by the set rule
 			}
